@@ -4,6 +4,7 @@ change how the content decodes, an ill-formed byte followed by the quote is a fu
 text with exactly one U+FFFD per ill-formed byte with ErrInvalidUTF8 iff there is one.  Core Lean only.
 -/
 import JsonV.Lemmas.QuoteWf
+import JsonV.Lemmas.QuoteMeaning
 
 namespace JsonV.Lemmas.QuoteRaw
 open JsonV JsonV.Model.Utf8 JsonV.Model.Quote JsonV.Lemmas.QuoteUtf8 JsonV.Lemmas.QuoteL JsonV.Spec.StringSpec JsonV.Lemmas.QuoteWf
@@ -147,5 +148,45 @@ theorem unqLoop_raw (body : Bytes) (hb : RawBody body) (e : Err) :
         simp only [List.drop_succ_cons, List.drop_zero, Option.getD_some, ih hrest Err.invalidUTF8, hi, ↓reduceIte, h1]
         have : 0 < 1 + illFormedCount t := by omega
         simp [this, utf8FFFD, replacement]
+
+/-! ### Literals mixing escape sequences and raw ill-formed bytes -/
+
+open JsonV.Lemmas.QuoteMeaning in
+/-- AppendUnquote's loop on content described by `UnescapesLossy`: the meaning with exactly one U+FFFD per ill-formed
+byte; the pending error becomes ErrInvalidUTF8 iff there is at least one. -/
+theorem unqLoop_lossy {body m : Bytes} {k : Nat} (h : UnescapesLossy body m k) (e : Err) :
+    unqLoop (body ++ [0x22]) e = (m, if 0 < k then Err.invalidUTF8 else e) := by
+  induction h generalizing e with
+  | nil => simpa using unqLoop_close e
+  | @unescaped p rest m r k hd hp hi h20 hq hb _ ih =>
+    rw [List.append_assoc, unqLoop_cont e (unqStep_unescaped p r hd hp hi h20 hq hb _)]
+    simp [ih]
+  | @bad c rest m k hc hi _ ih =>
+    have h0 : ¬ c.toNat < runeSelf := by simp only [runeSelf]; omega
+    have hd : decodeRune (c :: rest) = (runeError, 1) := by
+      simp only [illFormedHead, Bool.and_eq_true, decide_eq_true_eq] at hi
+      exact Prod.ext hi.1 hi.2
+    rw [List.cons_append, unqLoop_cont e (unqStep_illFormed c rest h0 hd)]
+    simp [ih, utf8FFFD, replacement]
+  | @simple e' v rest m k hmem _ ih =>
+    rw [List.cons_append, List.cons_append, unqLoop_cont e (unqStep_simple e' v hmem _)]
+    simp [ih]
+  | @unicode a b c d v rest m k h4 hs _ ih =>
+    simp only [List.cons_append]
+    rw [unqLoop_cont e (unqStep_unicode a b c d v h4 hs _)]
+    simp [ih]
+  | @pair a b c d a' b' c' d' hi lo rest m k h1 h2 hh hl _ ih =>
+    simp only [List.cons_append]
+    rw [unqLoop_cont e (unqStep_pair a b c d a' b' c' d' hi lo h1 h2 hh hl _)]
+    simp [ih]
+
+/-- `Unescapes` is the ill-formed-byte-free part of `UnescapesLossy`. -/
+theorem unescapesLossy_of_unescapes {body m : Bytes} (h : Unescapes body m) : UnescapesLossy body m 0 := by
+  induction h with
+  | nil => exact .nil
+  | unescaped hd hp hi h20 hq hb _ ih => exact .unescaped hd hp hi h20 hq hb ih
+  | simple hm _ ih => exact .simple hm ih
+  | unicode h4 hs _ ih => exact .unicode h4 hs ih
+  | pair h1 h2 hh hl _ ih => exact .pair h1 h2 hh hl ih
 
 end JsonV.Lemmas.QuoteRaw
